@@ -92,36 +92,18 @@ func (w *World) earlyExits(pkgPrefixes ...string) []earlyExit {
 			if (cond == nil && caseKey == "") || inLit {
 				return true
 			}
-			var parts []string
-			if caseKey != "" {
-				parts = append(parts, caseKey)
-			}
-			a := newAstAtoms()
-			if cond != nil {
-				a = w.exprAtomsDeep(fi, cond)
-			}
-			for f := range a.Fields {
-				parts = append(parts, f)
-			}
-			for cl := range a.Calls {
-				if cl = normCallName(strings.TrimPrefix(cl, "inlined:")); !isPlumbingCall(cl) {
-					parts = append(parts, "call:"+cl)
-				}
-			}
-			for l := range a.Lits {
-				parts = append(parts, "lit:"+l)
-			}
-			for id := range a.Idents {
-				if strings.HasPrefix(id, "const:") {
-					parts = append(parts, id)
-				}
-			}
-			for op := range a.Ops {
-				parts = append(parts, "op:"+op)
-			}
-			sort.Strings(parts)
-			c := strings.Join(parts, ",")
 			for _, host := range hostParts(w.hostKey(fi.Key)) {
+				var parts []string
+				if caseKey != "" {
+					parts = append(parts, caseKey)
+				}
+				a := newAstAtoms()
+				if cond != nil {
+					w.withHost(host, func() { a = w.exprAtomsDeep(fi, cond) })
+				}
+				parts = append(parts, skipCondParts(a)...)
+				sort.Strings(parts)
+				c := strings.Join(parts, ",")
 				base := fmt.Sprintf("%s:return-nil-error[%s]", host, c)
 				count[base]++
 				key := base
